@@ -79,17 +79,18 @@ func c12builder(id int) avro.CodecBuildFunc {
 
 type c12shared struct {
 	// decode/encode with a shared codec
-	ds      *gen.DataSchema
-	t       *gen.T
-	codec   avro.Codec
-	encs    [][]byte
-	want    []reflect.Value
-	file    []byte
-	stat    *statictypes.Case
-	statV   []reflect.Value
-	statDat []string
-	types   []*gen.T
-	schemas []avro.Schema
+	ds         *gen.DataSchema
+	t          *gen.T
+	codec      avro.Codec
+	encs       [][]byte
+	want       []reflect.Value
+	file       []byte
+	stat       *statictypes.Case
+	statV      []reflect.Value
+	statDat    []string
+	types      []*gen.T
+	schemas    []avro.Schema
+	schemaJSON []string
 	// a codec that is shared but has never been used before the goroutines start (lazily initialised
 	// state would be initialised concurrently); values include nil pointers to collections
 	coldT     *gen.T
@@ -170,6 +171,8 @@ func c12prepare(c *core.Ctx, r *rand.Rand) *c12shared {
 		if err == nil {
 			sh.types = append(sh.types, t)
 			sh.schemas = append(sh.schemas, s)
+			js, _ := s.Marshal()
+			sh.schemaJSON = append(sh.schemaJSON, string(js))
 		}
 	}
 	return sh
@@ -323,6 +326,21 @@ func runC12(c *core.Ctx, i int) {
 								break
 							}
 						}
+					}
+				case op < 49: // serialise and parse schemas (private results from shared Schema values)
+					kind = "schema-json"
+					j := gr.IntN(len(sh.types))
+					sc := sh.schemas[j]
+					out, err := sc.Marshal()
+					keep := string(out)
+					runtime.Gosched()
+					if err != nil || keep != sh.schemaJSON[j] || string(out) != sh.schemaJSON[j] {
+						fail(kind, "Marshal output differs from the sequential result")
+						break
+					}
+					back, err := avro.SchemaFromString(keep)
+					if err != nil || !reflect.DeepEqual(libToIR(back), libToIR(sc)) {
+						fail(kind, "parsing the marshalled schema gives a different schema")
 					}
 				case op < 54: // schema generation on shared types
 					kind = "schema-for-type"
